@@ -321,6 +321,24 @@ class NativeVersion(BaseVersion):
         return self._version_cmp_part(self.debian_revision or "0",
                                       other.debian_revision or "0")
 
+    def __hash__(self):
+        # type: () -> int
+        # Versions that compare equal must hash equal ("1.0" == "1.00" == "0:1.0-0")
+        return hash((
+            int(self.epoch or "0"),
+            self._hash_key_part(self.upstream_version or "0"),
+            self._hash_key_part(self.debian_revision or "0"),
+        ))
+
+    @classmethod
+    def _hash_key_part(cls, part):
+        # type: (str) -> Tuple[str, ...]
+        key = [str(int(x)) if cls.re_digits.match(x) else x
+               for x in cls.re_all_digits_or_not.findall(part)]
+        while key and key[-1] == "0":
+            key.pop()
+        return tuple(key)
+
     @classmethod
     def _order(cls, x):
         # type: (str) -> int
